@@ -9,9 +9,9 @@
 #define KEY   "key-c07-secret"
 
 enum { B_HONEST = 0, B_FOREIGN_ID, B_STALE_ID, B_OTHER_HASH, B_OTHER_LEVEL, B_STATUS, B_ERROR_PDU, B_TRUNCATED, B_BAD_MAC, B_NO_MAC,
-       B_OTHER_VERSION, B_INCONSISTENT, B_EMPTY, B_NO_CHAINS, B_OTHER_KEY, B_NO_HEADER, B_GARBAGE, B_REORDERED, B_ID_HIGH32, B_ID_HIGHFF, B_LC_WRAP, B_ERROR_WITH_RESPONSE, B_NBEH };
+       B_OTHER_VERSION, B_INCONSISTENT, B_EMPTY, B_NO_CHAINS, B_OTHER_KEY, B_NO_HEADER, B_GARBAGE, B_REORDERED, B_ID_HIGH32, B_ID_HIGHFF, B_LC_WRAP, B_ERROR_WITH_RESPONSE, B_CONFIG_WITH_RESPONSE, B_NBEH };
 static const char *BNAME[B_NBEH] = {"honest", "foreign-id", "stale-id", "other-hash", "other-level", "status", "error-pdu", "truncated", "bad-mac", "no-mac",
-                                    "other-version", "inconsistent", "empty", "no-chains", "other-key", "no-header", "garbage", "chains-top-first", "id-plus-2^32", "id-high-half-set", "level-correction-wraps", "error-payload-with-response"};
+                                    "other-version", "inconsistent", "empty", "no-chains", "other-key", "no-header", "garbage", "chains-top-first", "id-plus-2^32", "id-high-half-set", "level-correction-wraps", "error-payload-with-response", "config-payload-with-response"};
 static const uint64_t STATUSES[] = {0x0101, 0x0102, 0x0103, 0x0104, 0x0105, 0x0106, 0x0107, 0x0200, 0x0300, 0x0301, 0x7777,
                                    0x100000000ULL, 0x8000000000000000ULL, 0xffffffff00000000ULL, 0x100000101ULL};   /* wider than 32 bits: low half zero / a known code */
 #define NSTATUS ((int)(sizeof STATUSES / sizeof *STATUSES))
@@ -26,6 +26,7 @@ typedef struct {
 	rsig client_view; int have_view;
 } server_t;
 static server_t S;
+static int g_conf_req;     /* 1: the asynchronous request also carries a configuration request */
 
 static void break_body(rsig *s, int sub) {
 	switch (sub % NINCONS) {
@@ -127,8 +128,12 @@ static void handler(const unsigned char *req, size_t n, vbuf *resp, void *user) 
 	}
 	/* error-payload-with-response: the authenticated PDU carries an error payload next to (sub 0: after, sub 1: in front of) the honest response */
 	if (S.behaviour == B_ERROR_WITH_RESPONSE && S.sub % 2 == 1) rp_error_payload(&payload, e.version, RP_AGGR, 0x0300, "upstream error");
+	/* config-payload-with-response: the authenticated v2 PDU carries the aggregator's configuration next to (sub 0: after, sub 1: in front of)
+	 * the honest response - a pushed configuration riding on a reply, or the answer to a request that asked for both */
+	if ((S.behaviour == B_CONFIG_WITH_RESPONSE || r.has_conf_req) && e.version == 2 && S.sub % 2 == 1) rp_aggr_conf_payload(&payload, 17, 1, 400, 1024, "ksi+tcp://parent.test:3332");
 	rp_aggr_resp_payload(&payload, e.version, id, 1, S.behaviour == B_STATUS ? STATUSES[S.sub % NSTATUS] : 0, S.behaviour == B_STATUS ? "refused" : NULL, body.p, body.n);
 	if (S.behaviour == B_ERROR_WITH_RESPONSE && S.sub % 2 == 0) rp_error_payload(&payload, e.version, RP_AGGR, 0x0101, "invalid request");
+	if ((S.behaviour == B_CONFIG_WITH_RESPONSE || r.has_conf_req) && e.version == 2 && S.sub % 2 == 0) rp_aggr_conf_payload(&payload, 17, 1, 400, 1024, "ksi+tcp://parent.test:3332");
 	rp_wrap_response(resp, &e, payload.p, payload.n);
 	if (S.behaviour == B_TRUNCATED) resp->n = resp->n / 2;
 	vb_free(&body); vb_free(&payload);
@@ -146,6 +151,7 @@ static void check_request_seen(int doc_alg, unsigned seed, uint64_t level) {
 	if ((S.last.has_level ? S.last.level : 0) != level) vf_fail("request-level-changed", "request carries level %llu, caller gave %llu", (unsigned long long)(S.last.has_level ? S.last.level : 0), (unsigned long long)level);
 	if (strcmp(S.last.login, LOGIN) != 0) vf_fail("request-login-changed", "request carries login id '%s'", S.last.login);
 	if (!S.mac_ok) vf_fail("request-mac", "request MAC does not verify under the configured key");
+	if (g_conf_req && !S.last.has_conf_req) vf_fail("request-config-dropped", "the request on the wire carries no configuration request");
 }
 
 static void check_result(int res, KSI_Signature *sig, int expect_ok, int doc_alg, unsigned seed, uint64_t level, const char *what) {
@@ -198,7 +204,7 @@ static void one_case(int iface, int transport, int version, int doc_alg, uint64_
 	memset(&S, 0, sizeof S);
 	S.behaviour = B_HONEST; S.sub = sub; S.version = version; S.shape = shape; S.tail = tail;
 	set_version(ctx, version);
-	expect_ok = (behaviour == B_HONEST) && honest_possible(level);
+	expect_ok = (behaviour == B_HONEST || behaviour == B_CONFIG_WITH_RESPONSE) && honest_possible(level);
 	if (behaviour == B_OTHER_LEVEL && level == 0) expect_ok = 1;          /* deviation not expressible at level 0: reply is honest */
 	if (behaviour == B_LC_WRAP && level == 0 && honest_possible(level)) expect_ok = 1;
 	if (iface != 2) {
@@ -240,6 +246,18 @@ static void one_case(int iface, int transport, int version, int doc_alg, uint64_
 			hl = ref_fake_imprint(doc_alg, rounds ? 7 : seed, h);
 			KSI_DataHash_free(hsh); hsh = NULL;
 			KSI_DataHash_fromImprint(ctx, h, hl, &hsh);
+			if (g_conf_req && !rounds) {
+				/* one request asking for a signature AND the aggregator's configuration */
+				KSI_AggregationReq *rq = NULL;
+				KSI_Config *cf = NULL;
+				KSI_Integer *li = NULL;
+				if (KSI_AggregationReq_new(ctx, &rq) != KSI_OK || KSI_Config_new(ctx, &cf) != KSI_OK || KSI_Integer_new(ctx, lv, &li) != KSI_OK) vf_harness_error("request objects");
+				KSI_AggregationReq_setRequestHash(rq, hsh);
+				if (lv != 0) KSI_AggregationReq_setRequestLevel(rq, li); else KSI_Integer_free(li);
+				KSI_AggregationReq_setConfig(rq, cf);
+				res = KSI_AsyncAggregationHandle_new(ctx, rq, &hd);
+				if (res != KSI_OK) { KSI_AggregationReq_free(rq); hsh = NULL; }
+			} else
 			res = KSI_AsyncSigningHandle_new(ctx, hsh, lv, &hd);
 			if (res != KSI_OK) { vf_outcome("async:handle-refused"); break; }
 			hsh = NULL; /* the handle took ownership */
@@ -251,6 +269,12 @@ static void one_case(int iface, int transport, int version, int doc_alg, uint64_
 				res = KSI_AsyncService_run(svc, &out, &waiting);
 				vf_count("impl_calls", 1);
 				if (res != KSI_OK) break;
+				if (out != NULL) {
+					/* a configuration delivered as a handle of its own is not the answer to the signing request */
+					int st = 0;
+					KSI_AsyncHandle_getState(out, &st);
+					if (st == KSI_ASYNC_STATE_PUSH_CONFIG_RECEIVED) { vf_outcome("async:config-handle"); KSI_AsyncHandle_free(out); out = NULL; continue; }
+				}
 				if (out == NULL) sn_now += 1;
 			}
 			if (out == NULL) { res = res == KSI_OK ? KSI_UNKNOWN_ERROR : res; vf_fail("async-no-completion", "request not handed back within 60 rounds / 60 virtual seconds (res 0x%x)", res); break; }
@@ -280,7 +304,7 @@ static void one_case(int iface, int transport, int version, int doc_alg, uint64_
 	}
 	if (getenv("VF_DEBUG")) KSI_ERR_statusDump(ctx, stderr);
 	check_request_seen(doc_alg, seed, (iface == 1 || iface == 5) ? 0 : level);
-	if (behaviour == B_OTHER_LEVEL || behaviour == B_INCONSISTENT || behaviour == B_OTHER_HASH || behaviour == B_HONEST || behaviour == B_REORDERED) {
+	if (behaviour == B_OTHER_LEVEL || behaviour == B_INCONSISTENT || behaviour == B_OTHER_HASH || behaviour == B_HONEST || behaviour == B_REORDERED || behaviour == B_CONFIG_WITH_RESPONSE) {
 		/* whether such a body is acceptable is decided by the reference evaluator on what the client
 		 * reconstructs (e.g. without a calendar chain an altered sibling or level is not observable) */
 		expect_ok = 0;
@@ -318,7 +342,7 @@ static void part_main(void) {
 	for (iface = 0; iface < 6; iface++) for (tr = 0; tr < 2; tr++) for (ver = 2; ver >= 1; ver--)
 	for (ai = 0; ai < 4; ai++) for (li = 0; li < 5; li++) for (shape = 0; shape < 6; shape++) for (tail = 0; tail < 3; tail++)
 	for (b = 0; b < B_NBEH; b++) {
-		int nsub = b == B_STATUS || b == B_ERROR_PDU ? NSTATUS : b == B_INCONSISTENT ? NINCONS : (b == B_LC_WRAP || b == B_ERROR_WITH_RESPONSE) ? 2 : 1;
+		int nsub = b == B_STATUS || b == B_ERROR_PDU ? NSTATUS : b == B_INCONSISTENT ? NINCONS : (b == B_LC_WRAP || b == B_ERROR_WITH_RESPONSE || b == B_CONFIG_WITH_RESPONSE) ? 2 : 1;
 		int rt = tail == 2 ? 3 : tail;
 		if ((iface == 1 || iface == 5) && li != 0) continue;     /* createSignature / KSI_Signature_create have no level */
 		if (!VF_THOROUGH) {
@@ -501,7 +525,22 @@ static void part_readd(void) {
 	}
 }
 
+/* a signing request that also asks for the configuration: the hash and level still go out, the reply (configuration and response in one
+ * PDU under v2) still completes the request with the signature */
+static void part_confreq(void) {
+	static const uint64_t LV[] = {0, 3};
+	int tr, ver, li, sub, shape;
+	g_conf_req = 1;
+	for (tr = 0; tr < 2; tr++) for (ver = 2; ver >= 1; ver--) for (li = 0; li < 2; li++) for (sub = 0; sub < 2; sub++) for (shape = 0; shape < (VF_THOROUGH ? 6 : 2); shape++) {
+		if (!vf_case_begin("sign-confreq:tr%d:v%d:lvl%llu:order%d:shape%d", tr, ver, (unsigned long long)LV[li], sub, shape)) continue;
+		one_case(2, tr, ver, RH_SHA256, LV[li], shape, 1, B_HONEST, sub);
+		vf_case_end(1);
+	}
+	g_conf_req = 0;
+}
+
 static void run(void) {
+	part_confreq();
 	part_sha1();
 	part_readd();
 	part_chain();
